@@ -29,6 +29,15 @@ def run(ctx):
     ctx.tlc_mc("Targets", "MC_Targets", workers=16, timeout=1200)
     ctx.tlc_mc("Targets", "MC_Targets_asfound", workers=8, timeout=600, expect_violation="BadEntryOneError")
     sc, total = tc.abstract_scenarios(ctx, 2, 2, 2, FILE_MODES, 6000 if quick else 0)
+    # beyond the enumerated universe: long files (more bad lines than the 100-slot error buffers hold), seeded
+    import random
+    rnd = random.Random(ctx.seed * 31 + 5)
+    kinds = ["valid", "badip", "badport", "noip", "noport", "badip", "badport"]
+    for k in range(4 if quick else 24):
+        n = 250 + rnd.randrange(200)
+        f = [{"kind": rnd.choice(kinds), "ip": rnd.choice([1, 2]), "port": rnd.choice([1, 2])} for _ in range(n)]
+        sc.append({"mode": "pairs", "file": f, "ports": [], "excl": [2] if k % 2 else [], "cache": [], "gw": True, "useFilter": bool(k % 2), "useMac": False,
+                   "naddr": 2, "id": len(sc) + 1, "cmd": ["socks", "tcp"][k % 2 if k > 1 else 0]})
     ctx.step("scenarios", enumerated=total, run=len(sc))
     trace = tc.run_parallel(ctx, "^TestVfTargets$", sc, "c13", procs=8 if quick else 14)
     n, _ = vf.validate_runs(ctx, "TargetsTrace", trace, cfg="TargetsTrace_A2", keyfn=tc.target_key, label="target files", timeout=3000)
